@@ -71,7 +71,7 @@ type Encrypt struct {
 // Call the function with the arguments provided.
 func (f *Encrypt) Call(s *slip.Scope, args slip.List, depth int) (result slip.Object) {
 	slip.CheckArgCount(s, depth, f, args, 2, 8)
-	data := []byte(slip.CoerceToOctets(args[0]).(slip.Octets))
+	data := coerceToBytes(args[0])
 	non, pad, block, bsize := extractEncryptArgs(s, args[1:], depth)
 	// Data must be a multiple of the block size so pad as needed.
 	if len(data)%bsize != 0 {
@@ -95,7 +95,7 @@ func extractEncryptArgs(
 	args slip.List,
 	depth int) (nonce []byte, pad byte, block cipher.Block, bsize int) {
 
-	key := []byte(slip.CoerceToOctets(args[0]).(slip.Octets))
+	key := coerceToBytes(args[0])
 	var ciph slip.Object = slip.Symbol(":aes")
 	pad = byte(0)
 	if 1 < len(args) {
@@ -104,7 +104,7 @@ func extractEncryptArgs(
 			ciph = obj
 		}
 		if obj, has := slip.GetArgsKeyValue(rest, slip.Symbol(":nonce")); has {
-			nonce = []byte(slip.CoerceToOctets(obj).(slip.Octets))
+			nonce = coerceToBytes(obj)
 		}
 		if obj, has := slip.GetArgsKeyValue(rest, slip.Symbol(":pad")); has {
 			pad = byte(slip.ToOctet(obj).(slip.Octet))
